@@ -692,8 +692,10 @@ class Stage:
         """
         if grid=='inf':
             return self._create_placeholder_expr(expr, 'integral')
-        else:
+        elif grid=='control':
             return self._create_placeholder_expr(expr, 'integral_control', refine=refine)
+        else:
+            raise Exception("Invalid argument: grid must be 'inf' or 'control', got " + repr(grid))
 
     def sum(self, expr, grid='control', include_last=False):
         """Compute a sum
@@ -707,6 +709,8 @@ class Stage:
                 control: the integral is evaluated as a sum on the control grid (start of each control interval)
                          Note that the final state is not included in this definition
         """
+        if grid!='control':
+            raise Exception("Invalid argument: grid must be 'control', got " + repr(grid))
         if include_last:
             return self._create_placeholder_expr(expr, 'sum_control_plus')
         else:
